@@ -402,6 +402,7 @@ func phaseConc(c *ctx) {
 
 	// (4) no global lock
 	nNL := r.N(24, 400)
+	nlFails := 0
 	for i := 0; i < nNL; i++ {
 		if !c.mine(i, nNL) {
 			continue
@@ -421,6 +422,12 @@ func phaseConc(c *ctx) {
 		}
 		if res.fail != nil {
 			r.Violation(res.fail.sig, res.fail.what, res.cs)
+			// each blocked writer costs the full (generous) wait; a few witnesses are
+			// enough, and the remaining cases must not run the child into its watchdog
+			if nlFails++; nlFails >= 2 {
+				r.Count("nolock_cases_skipped_after_violations", nNL-i-1)
+				break
+			}
 		}
 	}
 
